@@ -304,18 +304,21 @@ class Machinery(Exception):
 
 
 def analyse_case(run, case):
-    """first failure in a case: ('oracle', idx, msg) | ('diff', idx, msg) | None"""
+    """failure of a case: ('oracle', idx, msg) | ('diff', idx, msg) | None.
+    A model-free oracle failure anywhere in the case is a concrete violation on the real code and wins
+    over an earlier model/implementation disagreement (which only says the correspondence broke)."""
+    first_diff = None
     for i, (op, a, b) in enumerate(zip(case["ops"], case["impl"], case["model"])):
         body, o = split_obs(a)
         rel = relevant_oracle(o, run.tags)
         if rel:
             return ("oracle", i, rel)
-        if run.driver:
+        if run.driver and first_diff is None:
             pa = run.project(body) if run.project else body
             pb = run.project(split_obs(b)[0]) if run.project else split_obs(b)[0]
             if pa != pb:
-                return ("diff", i, f"impl: {pa[:400]} | model: {pb[:400]}")
-    return None
+                first_diff = ("diff", i, f"impl: {pa[:400]} | model: {pb[:400]}")
+    return first_diff
 
 
 def rerun_case(ctx, run, ops, tag="shrink"):
@@ -338,7 +341,7 @@ def rerun_case(ctx, run, ops, tag="shrink"):
     return {"ops": ops, "impl": impl, "model": model}
 
 
-def shrink(ctx, run, case, kind, budget=60):
+def shrink(ctx, run, case, kind, budget=45):
     """delta debugging on the request list (first line `case …` is kept); same failure kind must persist"""
     ops = case["ops"]
     head, body = ops[:1], ops[1:]
